@@ -1,4 +1,97 @@
-From HP Require Import Base.Prelude Base.Path OSPath.OSPath.
-Example C09_smoke : to_os false 47 [] (S "tmp/root") (S "a/b") = Some (S "/tmp/root/a/b").
-Proof. vm_compute. reflexivity. Qed.
-Print Assumptions C09_smoke.
+(* C09 -- os.FS maps names to OS paths inside its root, reversibly.
+   Model: OSPath/OSPath.v ([to_os] = FS.toOSPath, [from_os] = FS.fromOSPath, [sub_root] = Sub), for an
+   explicit convention: [w] = goos is "windows", [sep] = filepath.Separator, [vol] = the SubVolume name.
+   filepath.VolumeName is OS library code: its result for the path at hand is the argument [pvol].
+   The root of an os.FS is "" or the result of Sub calls, i.e. it satisfies [root_ok] (C09_sub_roots_are_ok).
+   Not in the model: the error path rewriting of os/fs.go (checked by the harness on the real OS only). *)
+From HP Require Import Base.Prelude Base.Path Base.PathProofs OSPath.OSPath OSPath.OSPathProofs.
+Open Scope N_scope.
+
+(* every chain of Sub calls from a fresh FS gives a root that is empty or a valid non-"." path *)
+Theorem C09_sub_roots_are_ok : forall dirs r, sub_chain [] dirs = Some r -> root_ok r.
+Proof. intros dirs r. apply sub_chain_ok. left. reflexivity. Qed.
+Print Assumptions C09_sub_roots_are_ok.
+
+Theorem C09_sub_is_root_joined_with_dir : forall root dir,
+  root_ok root -> valid_path dir = true -> sub_root root dir = Some (rel_of root dir).
+Proof. exact sub_root_rel. Qed.
+Print Assumptions C09_sub_is_root_joined_with_dir.
+
+(* the OS path is exactly volume + separator + (root joined with the name), in the OS's separator *)
+Theorem C09_os_path_is_root_joined_with_name : forall w sep vol root p,
+  root_ok root -> valid_path p = true -> sep_ok sep root p ->
+  to_os w sep vol root p =
+    Some (trim_right_byte sep (get_volume w vol) ++ sep :: from_separator sep (rel_of root p)).
+Proof. exact to_os_exact. Qed.
+Print Assumptions C09_os_path_is_root_joined_with_name.
+
+Theorem C09_unix_os_path : forall root p, root_ok root -> valid_path p = true ->
+  to_os false slash [] root p = Some (slash :: rel_of root p).
+Proof. exact to_os_unix. Qed.
+Print Assumptions C09_unix_os_path.
+
+(* ... which is the root itself or lies below root + "/" *)
+Theorem C09_valid_names_stay_inside_the_root : forall root p, root <> [] ->
+  rel_of root p = root \/ has_prefix (rel_of root p) (root ++ [slash]) = true.
+Proof. exact rel_of_confined. Qed.
+Print Assumptions C09_valid_names_stay_inside_the_root.
+
+(* invalid names are refused before any OS path exists; so are names or roots containing a non-'/' separator *)
+Theorem C09_invalid_names_are_refused : forall w sep vol root p,
+  valid_path p = false -> to_os w sep vol root p = None.
+Proof. exact to_os_refuses_invalid. Qed.
+Print Assumptions C09_invalid_names_are_refused.
+
+Theorem C09_names_containing_the_os_separator_are_refused : forall w sep vol root p, sep <> slash ->
+  contains_byte sep p = true \/ contains_byte sep root = true -> to_os w sep vol root p = None.
+Proof. exact to_os_refuses_separator. Qed.
+Print Assumptions C09_names_containing_the_os_separator_are_refused.
+
+(* FromOSPath inverts ToOSPath on every valid name, for every convention *)
+Theorem C09_from_os_inverts_to_os : forall w sep vol root p q,
+  root_ok root -> valid_path p = true -> sep_ok sep root p ->
+  trim_right_byte sep (get_volume w vol) = get_volume w vol ->
+  to_os w sep vol root p = Some q ->
+  from_os w sep vol root (get_volume w vol) q = Some p.
+Proof. exact from_to_os. Qed.
+Print Assumptions C09_from_os_inverts_to_os.
+
+(* FromOSPath never returns a string that is not a valid FS path *)
+Theorem C09_from_os_returns_only_valid_paths : forall w sep vol root pvol q r,
+  from_os w sep vol root pvol q = Some r -> valid_path r = true.
+Proof. exact from_os_result_valid. Qed.
+Print Assumptions C09_from_os_returns_only_valid_paths.
+
+(* it accepts only paths on its volume and inside its root; look-alike prefixes are outside *)
+Theorem C09_from_os_refuses_other_volumes : forall w sep vol root pvol q,
+  pvol <> get_volume w vol -> from_os w sep vol root pvol q = None.
+Proof. exact from_os_refuses_other_volume. Qed.
+Print Assumptions C09_from_os_refuses_other_volumes.
+
+Theorem C09_from_os_accepts_only_paths_inside_the_root : forall w sep vol root q r, root <> [] ->
+  from_os w sep vol root (get_volume w vol) q = Some r ->
+  let fsp := to_separator sep (trim_prefix (trim_prefix q (get_volume w vol)) [sep]) in
+  fsp = root \/ has_prefix fsp (root ++ [slash]) = true.
+Proof. intros w sep vol root q r NR H. rewrite from_os_unfold in H. eapply from_rel_inside; eauto. Qed.
+Print Assumptions C09_from_os_accepts_only_paths_inside_the_root.
+
+Theorem C09_lookalike_prefix_is_outside : forall root c rest, root <> [] -> c <> slash ->
+  from_os false slash [] root [] (slash :: root ++ c :: rest) = None.
+Proof.
+  intros root c rest NR NC.
+  change (from_os false slash [] root [] (slash :: root ++ c :: rest))
+    with (from_os false slash [] root (get_volume false []) (slash :: root ++ c :: rest)).
+  rewrite from_os_unfold. change (get_volume false []) with (@nil N). rewrite trim_prefix_nil.
+  change (slash :: root ++ c :: rest) with ([slash] ++ (root ++ c :: rest)). rewrite trim_prefix_app.
+  apply from_rel_lookalike; assumption.
+Qed.
+Print Assumptions C09_lookalike_prefix_is_outside.
+
+Example C09_nonvacuous :
+  root_ok (S "tmp/root") /\ to_os false 47 [] (S "tmp/root") (S "a/b") = Some (S "/tmp/root/a/b")
+  /\ from_os false 47 [] (S "tmp/root") [] (S "/tmp/root/a/b") = Some (S "a/b")
+  /\ from_os false 47 [] (S "tmp/root") [] (S "/tmp/rootx/a") = None
+  /\ to_os true 92 [] (S "Users/x") (S "a/b") = Some (S "C:\Users\x\a\b")
+  /\ from_os true 92 [] (S "Users/x") (S "C:") (S "C:\Users\x\a\b") = Some (S "a/b")
+  /\ sub_chain [] [S "tmp"; S "."; S "root"] = Some (S "tmp/root").
+Proof. unfold root_ok. vm_compute. repeat split; auto. right. split; [reflexivity|discriminate]. Qed.
